@@ -93,6 +93,14 @@ CLAIMED = {
              "(no programme) every per-step state is unchanged; the step-0 flux term does not mention area, feed amount or step length.",
         note=TB + "coupling at step k is the induction hypothesis, prefix values the base case (induction principle trusted)",
         technique="substitution instances of the extracted recurrence (self-composition) discharged by ring normal form / z3"),
+    'C05': dict(
+        level='proof', ref='DESIGN.md 3/C05',
+        text="For both non-ideal process models and non_ideal_diffusion_curve (mass/molar initial feed, one/many curves, with/without initial permeances, all modes): "
+             "provenance of the returned functions (find_best_fit of each component's measurements with the stated n, m, component index; single curve: Arrhenius rescale "
+             "followed through the aliased coefficient list), step-0 permeances, permeance of step k+1 = returned fit(state) x constant factor fixed at step 0 (factor 1 when "
+             "none supplied), and the Arrhenius lemma f'(x,T) = f(x,Tc) exp(-Ea/R (1/T-1/Tc)) by exponent identity.",
+        note=TB + "hypothesis alpha>0 for fitted functions; find_best_fit / measurements / __call__ / activation energy by contract; repaired by fix commit 56213d2 (molar initial feed)",
+        technique="contracts + loop recurrence + heap aliasing followed by the executor; ring normal form with exp-product normalisation / z3"),
 }
 
 NOT_YET = "check under construction (see DESIGN.md section 7); not claimed until every obligation is in place"
